@@ -114,6 +114,26 @@ fn gen_queries(prop: &str, n: usize, seed: u64, out: &Path, cap: usize) {
         extra.truncate(n / 3 + 50);
         positions.extend(extra);
     }
+    if prop == "C16" {
+        // occupancy patterns: for every square and both slider geometries, subsets of the relevant squares realised
+        // as positions (bishop masks of at most 2^5 subsets completely, the others sampled; HARNESS_DEEP: all
+        // bishop subsets and 256 rook subsets per square)
+        use rand::Rng;
+        let deep = std::env::var("HARNESS_DEEP").is_ok();
+        for sq in 0..64 {
+            for rook in [false, true] {
+                let bits = posgen::relevant_squares(sq, rook).len();
+                let all = 1u64 << bits;
+                let want = if !rook && (deep || bits <= 5) { all } else if deep { 256 } else { (n as u64 / 100).clamp(8, 24) };
+                for k in 0..want {
+                    let subset = if want == all { k } else { rng.gen_range(0..all) };
+                    if let Some(b) = posgen::occupancy_position(&mut rng, sq, rook, subset) {
+                        positions.push(b);
+                    }
+                }
+            }
+        }
+    }
     for b in positions.iter() {
         sink.begin(&json!({"prop": prop, "fen": b.as_fen()}));
         let ev = query_one(&ctx, b, prop);
@@ -252,6 +272,7 @@ fn regen(prop: &str, input: &Path, out: &Path) {
             }
             sink.emit(&misc::consts_event());
             sink.emit(&misc::outcomes_event());
+            sink.emit(&misc::moveapi_event());
             sink.emit(&misc::geometry_event());
             for e in misc::bitboard_events(&mut rng) {
                 sink.emit(&e);
@@ -524,6 +545,29 @@ fn gen_notation(prop: &str, n: usize, rng: &mut StdRng, sink: &mut Sink) {
                     strings.push(notation::mutate(rng, &v));
                 }
             }
+            // length boundaries: runs of one character of every length up to 130, and the longest texts that are
+            // still accepted (digit-by-digit placement, zero-padded and signed counters, padded move lists)
+            for ch in ['1', 'a', 'K', '/', ' ', '0', '-', 'x'] {
+                for len in 0..=130usize {
+                    if len <= 3 || len % (if deep { 1 } else { 3 }) == 0 || (60..=100).contains(&len) {
+                        strings.push(ch.to_string().repeat(len));
+                    }
+                }
+            }
+            let ones = ["11111111"; 8].join("/");
+            strings.push(format!("{ones} w - - 0 1"));
+            strings.push(format!("{ones} b KQkq - 65535 65535"));
+            strings.push("1k1p1p1p/p1p1p1p1/1p1p1p1p/11111111/11111111/P1P1P1P1/1P1P1P1P/P1P1P1K1 w - - 00000000000000000000000000000000000012 +0000000000000000000000000000000000000000007".into());
+            strings.push("r1b1k1nr/1p1p1p1p/n1b1q1n1/1p1p1p2/1P1P1P2/N1B1Q1N1/1P1P1P1P/R1B1K1NR w KQkq d6 +10000 0000000000000000000000000000000000000000000000000000000000000000000000000000000000000000010000".into());
+            strings.push(format!("e2e4{}e7e5", " ".repeat(5000)));
+            strings.push(format!("{}e2e4", "\t".repeat(300)));
+            for n in [85usize, 86, 87, 88, 89, 90, 91, 92, 93, 94, 95, 96, 127, 128, 129, 255, 256, 257] {
+                // a valid FEN padded to exactly n bytes by zero-padding the move number
+                let head = "r1b1k1nr/1p1p1p1p/n1b1q1n1/1p1p1p2/1P1P1P2/N1B1Q1N1/1P1P1P1P/R1B1K1NR w KQkq d6 10000 ";
+                if n > head.len() {
+                    strings.push(format!("{head}{}7", "0".repeat(n - head.len() - 1)));
+                }
+            }
             // long and random-unicode strings
             strings.push("e2e4 ".repeat(400));
             strings.push("é".repeat(1000));
@@ -702,6 +746,7 @@ fn gen_misc(prop: &str, n: usize, rng: &mut StdRng, sink: &mut Sink) {
             }
             sink.emit(&misc::consts_event());
             sink.emit(&misc::outcomes_event());
+            sink.emit(&misc::moveapi_event());
             sink.emit(&misc::geometry_event());
             for ev in misc::bitboard_events(rng) {
                 sink.emit(&ev);
